@@ -94,8 +94,8 @@ struct Gen {
 			L.rows.push_back(R);
 		}
 		// names that are plain tokens and still special: the label the writers give an unnamed objective, and what the library generates for unnamed rows / columns
-		if (m > 0 && r.chance(1, 14)) { static const char *sp[] = {"obj", "obj", "OBJ", "c1", "r_1", "c2_0"}; L.rows[r.below(L.rows.size())].name = sp[r.below(6)]; }
-		if (n > 0 && r.chance(1, 20)) { static const char *sp[] = {"obj", "x1", "c1", "x_2"}; std::string nm = sp[r.below(4)]; bool used = false; for (auto &c : L.cols) if (c.name == nm) used = true; if (!used) L.cols[r.below(L.cols.size())].name = nm; }
+		if (m > 0 && r.chance(1, 14)) { static const char *sp[] = {"obj", "obj", "OBJ", "c1", "r_1", "c2_0", "freerow", "endrow", "stay", "boundary", "minrow", "subjectx"}; L.rows[r.below(L.rows.size())].name = sp[r.below(12)]; }
+		if (n > 0 && r.chance(1, 12)) { static const char *sp[] = {"obj", "x1", "c1", "x_2", "freedom", "free_1", "Freeze", "infty", "infinite", "minor", "maxim", "stx", "endcol", "boundsx", "integers2", "generalx", "binaryx"}; std::string nm = sp[r.below(17)];   /* plain tokens: like the writers' defaults, or beginning like a keyword of the LP format */ bool used = false; for (auto &c : L.cols) if (c.name == nm) used = true; if (!used) L.cols[r.below(L.cols.size())].name = nm; }
 		if ((fam == 5 || fam == 6) && m > 0) {   // add a contradicting twin of some row
 			size_t i = r.below(L.rows.size()); PlanRow T = L.rows[i]; T.name = strf("rX%d", (int)L.rows.size());
 			if (T.nz.empty()) T.nz.push_back({0, "1"}), L.rows[i].nz = T.nz;
@@ -126,10 +126,10 @@ struct Gen {
 		for (int tries = 0; tries < 20; tries++) { w = kinds[r.below(sizeof kinds / sizeof *kinds)]; if (ok("edit:" + w)) break; w = "chgobj"; }
 		set(o, "what", w); seti(o, "o", r.below(4));
 		if (w == "newcol" || w == "addcol") { set(o, "obj", num()); set(o, "lo", bound_val(false)); set(o, "up", bound_val(true)); set(o, "name", newname("nc")); if (w == "addcol") set(o, "nz", nzlist(3)); }
-		else if (w == "addcols") { int c = r.range(0, 2); seti(o, "cnt", c); for (int k = 0; k < 3; k++) { set(o, strf("obj%d", k), num()); set(o, strf("lo%d", k), bound_val(false)); set(o, strf("up%d", k), bound_val(true)); set(o, strf("name%d", k), newname("mc")); set(o, strf("nz%d", k), nzlist(2)); } seti(o, "nullnames", r.chance(1, 5)); }
+		else if (w == "addcols") { int c = r.range(0, 2); seti(o, "cnt", c); for (int k = 0; k < 3; k++) { set(o, strf("obj%d", k), num()); set(o, strf("lo%d", k), bound_val(false)); set(o, strf("up%d", k), bound_val(true)); set(o, strf("name%d", k), newname("mc")); set(o, strf("nz%d", k), nzlist(2)); } seti(o, "nullnames", r.chance(1, 5)); if (r.chance(1, 6)) { seti(o, "cnt", r.range(1, 2)); set(o, "name0", "-"); set(o, "name1", "@gen"); seti(o, "nullnames", 0); } }
 		else if (w == "newrow") { set(o, "rhs", num()); set(o, "sense", std::string(1, "LGE"[r.below(3)])); set(o, "name", newname("nr")); }
 		else if (w == "addrow") { char s = ok("edit:addrow:R") ? "LGER"[r.below(4)] : "LGE"[r.below(3)]; set(o, "rhs", num()); set(o, "sense", std::string(1, s)); set(o, "range", pos()); set(o, "name", newname("ar")); set(o, "nz", nzlist(4)); seti(o, "ranged", r.chance(1, 3)); }
-		else if (w == "addrows") { seti(o, "cnt", r.range(0, 2)); seti(o, "ranged", r.chance(1, 2)); for (int k = 0; k < 3; k++) { set(o, strf("rhs%d", k), num()); set(o, strf("sense%d", k), std::string(1, "LGER"[r.below(4)])); set(o, strf("range%d", k), pos()); set(o, strf("name%d", k), newname("mr")); set(o, strf("nz%d", k), nzlist(3)); } }
+		else if (w == "addrows") { seti(o, "cnt", r.range(0, 2)); seti(o, "ranged", r.chance(1, 2)); for (int k = 0; k < 3; k++) { set(o, strf("rhs%d", k), num()); set(o, strf("sense%d", k), std::string(1, "LGER"[r.below(4)])); set(o, strf("range%d", k), pos()); set(o, strf("name%d", k), newname("mr")); set(o, strf("nz%d", k), nzlist(3)); } if (r.chance(1, 6)) { seti(o, "cnt", r.range(1, 2)); set(o, "name0", "-"); set(o, "name1", "@gen"); } }
 		else if (w == "delrow" || w == "delnamedrow") seti(o, "i", r.below(30));
 		else if (w == "delcol" || w == "delnamedcol") seti(o, "j", r.below(30));
 		else if (starts_with(w, "del")) { std::string l; int k = r.range(1, 3); for (int t = 0; t < k; t++) { if (t) l += ","; l += std::to_string(r.below(30)); } set(o, "list", l); }
